@@ -72,7 +72,15 @@ where
     }
 
     writeln!(writer, "    let url = {:?};", action.as_str())?;
-    writeln!(writer, "    helpers::send_soap_request(url, credentials, req).await")?;
+    if operation.output.is_some() {
+        writeln!(writer, "    helpers::send_soap_request(url, credentials, req).await")?;
+    } else {
+        // nothing is deserialized for an operation without an output message
+        writeln!(
+            writer,
+            "    helpers::send_soap_request::<_, helpers::NoResponse, _, _>(url, credentials, req).await.map(|_| ())"
+        )?;
+    }
     writeln!(writer, "}}")?;
 
     Ok(())
